@@ -48,6 +48,8 @@ pub enum Op {
     /// any order: keyed items behind plain ones, keys at the ends of the symbol value range, repeated keys
     MakeMixedList(Vec<(usize, Option<u64>)>),
     MergeSymbols(u64, u64, Option<u64>),
+    /// merge_to_symbol_list of two earlier values that are symbols or symbol lists (any lengths, either order)
+    MergeEarlier(usize, usize),
     PushRegister(usize),
     PopRegister,
     PushValue(usize),
@@ -315,6 +317,29 @@ fn apply<D: SimData>(d: &mut D, m: &mut Model, op: &Op, out: &mut Outcome) -> Ap
                 parts.push(SymPart::Sym(*c));
                 added!(cur, Val::SymList(parts));
             }
+        }
+        Op::MergeEarlier(sa, sb) => {
+            // the k-th / l-th earlier value of a symbol kind
+            let syms: Vec<usize> = m.order.iter().cloned().filter(|a| matches!(m.vals[a], Val::Sym(_) | Val::SymList(_))).collect();
+            if syms.is_empty() {
+                return Applied::Skipped;
+            }
+            let (x, y) = (syms[sa % syms.len()], syms[sb % syms.len()]);
+            let parts = |v: &Val| -> Vec<SymPart> {
+                match v {
+                    Val::Sym(s) => vec![SymPart::Sym(*s)],
+                    Val::SymList(p) => p.clone(),
+                    _ => vec![],
+                }
+            };
+            let mut all = parts(&m.vals[&x]);
+            all.extend(parts(&m.vals[&y]));
+            if all.len() > 40 {
+                return Applied::Skipped;
+            }
+            let addr = tryq!(d.merge_to_symbol_list(x, y), "merge_to_symbol_list");
+            added!(addr, Val::SymList(all));
+            out.probe("symbol-lists-merged");
         }
         Op::PushRegister(s) => {
             let Some(a) = m.pick(*s) else { return Applied::Skipped };
@@ -831,6 +856,7 @@ fn gen_op(rng: &mut Rng, basic: bool) -> Op {
                 Op::MakeList((0..n).map(|_| rng.below(1000)).collect(), rng.chance(1, 3))
             }
         }
+        21 if rng.chance(1, 2) => Op::MergeEarlier(rng.below(1000), rng.below(1000)),
         21 => Op::MergeSymbols(symbol_value("ma"), symbol_value(*rng.pick(&["mb", "mc"])), if rng.chance(1, 2) { Some(symbol_value("md")) } else { None }),
         22 => {
             if rng.chance(2, 3) {
